@@ -36,6 +36,7 @@ ENTRY = [
     (C.M_MUN, 'Weapon.__init__'), (C.M_MUN, 'Ammo.__init__'), (C.M_MUN, 'Sight.__init__'), (C.M_DM, 'DragModel.__init__'),
     (C.M_DM, 'DragModelMultiBC'), (C.M_DM, 'BCPoint.__init__'), (C.M_COND, 'Atmo.icao'),
     (C.M_MUN, 'Sight.get_adjustment'), (C.M_MUN, 'Ammo.get_velocity_for_temp'),
+    (C.M_IF, 'Calculator.__post_init__'),
 ]
 # (function, parameter, field): stores into an argument that the statement itself grants
 ALLOWED_PARAM_EFFECTS = {('Calculator.set_weapon_zero', 'shot', 'zero_elevation'): 'zeroing changes the stored zero'}
@@ -109,6 +110,8 @@ def _top_level_self_stores(f: Func) -> List[Tuple[str, ast.stmt]]:
     me = f.positional[0]
     out = []
     for st in f.node.body:
+        if any(isinstance(x, (ast.Return, ast.Raise)) for x in ast.walk(st)) and not isinstance(st, (ast.Return, ast.Raise)):
+            break           # a conditional early exit: what follows is no longer assigned on every entry
         tgts = []
         if isinstance(st, ast.Assign):
             tgts = st.targets
